@@ -32,3 +32,36 @@ GridProp(
             "has NumPy's container structure and shapes, contains no Box, and is solver-equal entry-wise to what NumPy's own function returns on the same symbolic arrays; inputs keep their entries; autograd.builtins.isinstance/type answer as the builtins do"],
     selftest=False,
 ).export(globals())
+
+_grid_main, _grid_replay = main, replay
+
+
+def main(tier, only=None):
+    """the grid check, plus float64 probes of autograd.misc.optimizers / fixed_points ("user-supplied inputs are left
+    unmodified": read-only start points, iterates kept by a callback)"""
+    import os
+
+    os.environ["VF_EXTRA_RESULTS"] = "vf.props.misc_probe"
+    return _grid_main(tier, only=only)
+
+
+def replay(path):
+    import json
+
+    with open(path) as f:
+        data = json.load(f)
+    cex = data.get("cex") or {}
+    if cex.get("mode") == "misc":
+        from .. import enga
+        from . import misc_probe
+
+        enga.init()
+        bad = [r for r in misc_probe.run() if r["key"] == cex["key"] and r["status"] == "violation"]
+        for r in bad:
+            print("replay %s: %s" % (r["key"], r["detail"]))
+        if bad:
+            print("VIOLATION property=C06 replay=%s" % path)
+            return 1
+        print("does not reproduce on the current tree")
+        return 0
+    return _grid_replay(path)
